@@ -31,7 +31,7 @@ package ljh
 // (microseconds), then the samples as little-endian uint16.
 //@ func (*Writer).WriteRecord
 //@   props C05 C07
-//@   uses sfc
+//@   uses sfc_def
 //@   requires w.writer != nil && allocated(w.writer) && WInv(w.writer)
 //@   ensures wronglen: len(data) != w.Samples ==> result != nil
 //@   ensures rejected: result != nil ==> w.writer.n == old(w.writer.n) && w.RecordsWritten == old(w.RecordsWritten)
